@@ -928,6 +928,22 @@ func newRlua() *rlua {
 		}()
 		return append([]rval{LTrue}, r.call(args[0], args[1:])...)
 	})
+	reg("xpcall", func(r *rlua, args []rval) (out []rval) {
+		if len(args) < 2 {
+			r.fail("bad argument #2 to 'xpcall'")
+		}
+		defer func() {
+			if x := recover(); x != nil {
+				if e, ok := x.(rerror); ok {
+					// the handler runs once with the error value; its first result is returned
+					out = []rval{LFalse, first(r.call(args[1], []rval{e.v}))}
+					return
+				}
+				panic(x)
+			}
+		}()
+		return append([]rval{LTrue}, r.call(args[0], nil)...)
+	})
 	reg("select", func(r *rlua, args []rval) []rval {
 		if s, ok := arg(args, 0).(LString); ok && s == "#" {
 			return []rval{LNumber(len(args) - 1)}
